@@ -207,7 +207,7 @@ pub fn prop() -> Prop {
         gen,
         check,
         panic_is_violation: false,
-        budget: (300_000, 8_000_000),
+        budget: (1800000, 48000000),
         extra: Some(extra),
         required: &["multi_line", "overwide_exempt_line", "later_paragraph_with_different_indent_widths", "indent_wider_than_width"],
         known: Some(known),
